@@ -932,6 +932,18 @@ func (w *Worker) callValue(fr *frame, fv Value, args []Value, cc *ssa.CallCommon
 
 func (w *Worker) callFn(caller *frame, fn *ssa.Function, args []Value, env []Value) Value {
 	name := fn.String()
+	if len(w.prog.callRepl) > 0 {
+		if r, ok := w.prog.callRepl[name]; ok && caller != nil && fn != r.target {
+			cf := caller.fn
+			for cf.Parent() != nil {
+				cf = cf.Parent()
+			}
+			if cf.Pkg == r.pkg {
+				w.stubsUsed["replace-call "+name]++
+				return w.callFn(caller, r.target, args, nil)
+			}
+		}
+	}
 	if st, ok := w.prog.stubs[name]; ok {
 		w.stubsUsed[name]++
 		switch st.kind {
